@@ -34,11 +34,13 @@ RULE = ('Fold-balanced datasets: K conditions x M folds x R repetitions x P chan
         'alphabet of the designs with <= 729 value vectors; single-informative-fold data must give 0). Distinct = '
         'distinct case descriptor; non-trivial = not (single channel and remove_mean), probe able '
         'to show the effect. Sequence family: every ordered pair (thorough: triple) of cross-validated '
-        'estimator calls from a 20-call alphabet (crossnobis via calc_rdm / calc_rdm_crossnobis with or '
-        'without a precision, poisson_cv; condition descriptor stim or the coarser cat; default or '
-        'explicit folds) on ONE Dataset object: every result judged against the definition on the '
-        'original data, and the Dataset must be bit-identical (measurements, all descriptors, no new '
-        'keys) after every call.')
+        'estimator calls from a 26-call alphabet (crossnobis via calc_rdm / calc_rdm_crossnobis with no '
+        'precision, one matrix, one per fold as list / 3-D array; poisson_cv; condition descriptor stim or '
+        'the coarser cat; default or explicit folds) on ONE Dataset object and ONE set of caller-owned '
+        'precision objects: every result judged against the definition on the original data and pristine '
+        'precisions; the Dataset (measurements, all descriptors, no new keys) and the precision objects '
+        'must be bit-identical after every call (the latter also after every single call of the other '
+        'families). Scale family: data x 1e-5 / 1e4, precisions x 1e-8 / 1e6, int64 and bool measurements.')
 ASSUMPTIONS = [
     'reference in mc/ref/c02_ref.py is the definition (double loop over ordered pairs of distinct folds of fold-wise condition means)',
     'one precision per fold is passed as a list / 3-D array whose i-th entry belongs to the i-th fold in sorted order of the fold labels (numeric for numbers, lexicographic for strings); for the default fold descriptor the k-th entry belongs to fold k = k-th occurrence',
@@ -47,16 +49,17 @@ ASSUMPTIONS = [
     'poisson_cv data are non-negative',
 ]
 TOL = 1e-9
-TOLERANCES = {'value vs definition': TOL, 'invariance': TOL, 'second difference (linearity)': TOL,
+TOL_SCALED = 1e-7      # scale family: relative to the largest entry of the RDM
+TOLERANCES = {'value vs definition': TOL, 'scaled data/precisions, relative to max|RDM|': TOL_SCALED, 'invariance': TOL, 'second difference (linearity)': TOL,
               'fold ignored: change below': 1e-12}
 BOUNDS = {
     'quick': {'K': [2, 3], 'M': [2, 3], 'R': [1, 2], 'P': [1, 2, 3], 'all_row_orders_upto_rows': 6,
               'all_row_orders_of_6_row_designs_with_P': [2],
               'many_folds': [10, 11, 12], 'alphabets': ['{0,1,2}^4', '{-1,0,1,2}^4', '{0,1,2}^6', '{0,1,2}^8'],
-              'fills': 2, 'call_sequences': 'all ordered pairs of 20 calls x 3 designs (stimuli, categories, folds) x 2 row orders, P = 2'},
+              'fills': 2, 'call_sequences': 'all ordered pairs of 26 calls x 3 designs (stimuli, categories, folds) x 2 row orders, P = 2'},
     'thorough': {'K': [2, 3, 4], 'M': [2, 3, 4], 'R': [1, 2], 'P': [1, 2, 3], 'all_row_orders_upto_rows': 6,
                  'many_folds': [10, 11, 12, 13], 'alphabets': ['{0,1,2}^4..8', '{-1,0,1,2}^4..8', '{0,1}^12'],
-                 'fills': 4, 'call_sequences': 'all ordered triples of 20 calls x 3 designs x P in {1, 2}'},
+                 'fills': 4, 'call_sequences': 'all ordered triples of 26 calls x 3 designs x P in {1, 2}'},
 }
 
 # (method, noise form, remove_mean)
@@ -75,7 +78,10 @@ CAT_LABELS = ['cz', 'ca', 'b10']
 # [method, condition descriptor, folds, precision, entry point]
 SEQ_CALLS = [['crossnobis', d, cv, nz, e] for d in ('stim', 'cat') for cv in ('default', 'explicit')
              for nz in ('none', 'one') for e in ('calc_rdm', 'direct')] + \
-            [['poisson_cv', d, cv, 'none', 'calc_rdm'] for d in ('stim', 'cat') for cv in ('default', 'explicit')]
+            [['poisson_cv', d, cv, 'none', 'calc_rdm'] for d in ('stim', 'cat') for cv in ('default', 'explicit')] + \
+            [['crossnobis', d, cv, nz, ('calc_rdm', 'direct')[(i + j) % 2]]
+             for i, (d, cv) in enumerate([('stim', 'explicit'), ('cat', 'explicit'), ('stim', 'default')])
+             for j, nz in enumerate(('pf-list', 'pf-array'))]       # one precision per fold (M of them)
 
 
 def _fold_labels(kind, n_fold):
@@ -189,6 +195,9 @@ def shards(tier, seed):
         for P in (1, 2):
             for clab in ('int', 'char', 'str'):
                 out.append({'b': 'many', 'M': M, 'P': P, 'clab': clab})
+    for K, M, R in ([(2, 2, 1), (3, 3, 2), (2, 3, 2), (3, 2, 1), (4, 4, 1)] if thorough else [(2, 2, 1), (3, 3, 2), (2, 3, 2)]):
+        for P in (2, 3):
+            out.append({'b': 'scale', 'K': K, 'M': M, 'R': R, 'P': P})
     for S, C, M in SEQ_DESIGNS:
         for P in ((1, 2) if thorough else (2,)):
             step = 1 if thorough else 5
@@ -346,6 +355,23 @@ def run_shard(shard, ctx):
                     if cfg[1] == 'perfold':
                         case['nform'] = ('list', 'array')[oi % 2]
                     run_case(case, ctx)
+    elif b == 'scale':
+        K, M, R, P = shard['K'], shard['M'], shard['R'], shard['P']
+        so = _structured_orders(K, M, R)
+        for ci, cfg in enumerate(CFGS):
+            for vi, cv in enumerate(('explicit', 'default')):
+                kw = dict(cv=cv, order=so[(3, 1)[vi]], clab=('int', 'str')[(ci + vi) % 2],
+                          flab=('str', 'int')[ci % 2], entry=('calc_rdm', 'direct')[(ci + vi) % 2])
+                if cfg[1] == 'perfold':
+                    kw['nform'] = ('list', 'array')[vi]
+                # size of the data and of the precisions
+                for dscale in ((1e4,) if cfg[0] == 'poisson_cv' else (1e-5, 1e4)):   # counts x 1e-5: not meaningful
+                    for pscale in ((1e-8, 1e6) if cfg[1] != 'none' else (None,)):
+                        sc = {'dscale': dscale} if pscale is None else {'dscale': dscale, 'pscale': pscale}
+                        run_case(_base_case(K, M, R, P, cfg, values={'v': 'fill', 'k': 2}, **kw, **sc), ctx)
+                # integer-typed measurements
+                for dtype, vk in (('int', 'int'), ('bool', 'bool')):
+                    run_case(_base_case(K, M, R, P, cfg, values={'v': vk, 'k': 2}, dtype=dtype, **kw), ctx)
     elif b == 'seq':
         S, C, M, P = shard['S'], shard['C'], shard['M'], shard['P']
         n = S * M
@@ -390,6 +416,8 @@ def _values(case, seed):
     if kind == 'int':
         return g.integers(0, 6, size=(n, P)).astype(float) if poisson else \
             g.integers(-2, 5, size=(n, P)).astype(float)
+    if kind == 'bool':
+        return g.integers(0, 2, size=(n, P)).astype(float)
     if kind == 'fill':
         return np.round(g.uniform(0.1, 5.0, size=(n, P)), 3) if poisson else \
             np.round(g.normal(size=(n, P)) + 0.25, 4)
@@ -403,7 +431,8 @@ def _precision(seed, P, i):
 def _build(case, seed):
     K, M, R, P = case['K'], case['M'], case['R'], case['P']
     canon = _canon(K, M, R)
-    x0 = _values(case, seed)
+    x0 = _values(case, seed) * float(case.get('dscale', 1))
+    pscale = float(case.get('pscale', 1))
     chperm = list(case['chperm'])
     order = list(case['order'])
     assert sorted(order) == list(range(len(canon))) and sorted(chperm) == list(range(P))
@@ -424,10 +453,10 @@ def _build(case, seed):
         eff_ids = list(range(M * R))
     prec_lib = prec_ref = None
     if case['noise'] == 'one':
-        q = _precision(seed, P, 100)[np.ix_(chperm, chperm)]
+        q = _precision(seed, P, 100)[np.ix_(chperm, chperm)] * pscale
         prec_lib, prec_ref = q, q.copy()
     elif case['noise'] == 'perfold':
-        qs = {lab: _precision(seed, P, i)[np.ix_(chperm, chperm)] for i, lab in enumerate(eff_ids)}
+        qs = {lab: _precision(seed, P, i)[np.ix_(chperm, chperm)] * pscale for i, lab in enumerate(eff_ids)}
         prec_ref = {lab: q.copy() for lab, q in qs.items()}
         as_list = [qs[lab] for lab in sorted(qs)]        # i-th entry <-> i-th fold in sorted order
         prec_lib = np.array(as_list) if case.get('nform') == 'array' else as_list
@@ -455,7 +484,7 @@ def _library(case, inp, ctx, sigp, rows=None):
     from rsatoolbox.rdm import calc_rdm, calc_rdm_crossnobis
     rows = inp['rows'] if rows is None else rows
     K = case['K']
-    meas = np.array(rows, dtype=np.int64 if case.get('dtype') == 'int' else float)
+    meas = np.array(rows, dtype={'int': np.int64, 'bool': bool}.get(case.get('dtype'), float))
     cond = inp['cond']
     obs = {'trial': list(range(len(rows)))}
     obs['cond'] = np.array(cond) if case['clab'] == 'int' else list(cond)
@@ -468,6 +497,7 @@ def _library(case, inp, ctx, sigp, rows=None):
         noise = [q.copy() for q in noise]
     elif noise is not None:
         noise = noise.copy()
+    noise_before = fingerprint(noise)
     if case['method'] == 'poisson_cv':
         rdm = calc_rdm(ds, method='poisson_cv', descriptor='cond', cv_descriptor=cvd,
                        prior_lambda=case['prior'][0], prior_weight=case['prior'][1])
@@ -476,6 +506,9 @@ def _library(case, inp, ctx, sigp, rows=None):
                        cv_descriptor=cvd, remove_mean=case['rm'])
     else:
         rdm = calc_rdm_crossnobis(ds, 'cond', noise=noise, cv_descriptor=cvd, remove_mean=case['rm'])
+    if fingerprint(noise) != noise_before:
+        ctx.fail(sigp + '|modifies-argument:noise', case, 'the caller\'s precision argument (%s) is not '
+                 'bit-identical after the call; %s' % (type(noise).__name__, _describe(case, inp, rows)))
     labels = rdm.pattern_descriptors.get('cond')
     if labels is None:
         ctx.fail(sigp + '|label-missing', case, 'no pattern descriptor "cond" in the result')
@@ -582,9 +615,17 @@ def _judge(case, ctx):
         if case['values']['v'] == 'onefold' and all(abs(v) <= 1e-12 for v in want.values()):
             kind = 'single-informative-fold-nonzero(within-fold-product)'
         labs = inp['cond_labels']
+        if 'dscale' in case or 'pscale' in case:
+            # scaled data / precisions: compare relative to the size of the RDM, not to 1
+            norm = max(abs(v) for v in want.values()) or 1.0
+            got = {k: v / norm for k, v in got.items()}
+            want = {k: v / norm for k, v in want.items()}
+        else:
+            norm = 1.0
         for pair in sorted(want):
-            ctx.dev(sigp.split('|')[0], reldev(got[pair], want[pair]))
-            if not close(got[pair], want[pair], TOL):
+            ctx.dev(sigp.split('|')[0] + ('/scaled' if 'dscale' in case or 'pscale' in case else ''),
+                    reldev(got[pair], want[pair]))
+            if not close(got[pair], want[pair], TOL_SCALED if ('dscale' in case or 'pscale' in case) else TOL):
                 ctx.fail(sigp + '|' + kind, case, 'pair (%r,%r): got %.12g, definition %.12g; %s' % (
                     labs[pair[0]], labs[pair[1]], got[pair], want[pair], _describe(case, inp)))
         ctx.outcome([round(want[p], 9) for p in sorted(want)])
@@ -592,6 +633,7 @@ def _judge(case, ctx):
         if parent is not None:
             pg = _result(parent, ctx)
             if pg is not None:
+                pg = {k: v / norm for k, v in pg.items()}
                 for pair in sorted(got):
                     if not close(got[pair], pg[pair], TOL):
                         ctx.fail(sigp + '|' + what, case, 'pair (%r,%r): %.12g, but %.12g for the same '
@@ -701,12 +743,19 @@ def _seq_state(ds):
     return fingerprint([ds.measurements, ds.descriptors, ds.obs_descriptors, ds.channel_descriptors])
 
 
-def _seq_call(ds, call, data, seed, P):
+def _seq_noise(seed, P, M):
+    """the caller-owned precision objects of one sequence: ONE object per form, shared by all calls"""
+    per_fold = [_precision(seed, P, i) for i in range(M)]
+    return {'none': None, 'one': _precision(seed, P, 100), 'pf-list': [q.copy() for q in per_fold],
+            'pf-array': np.array(per_fold)}
+
+
+def _seq_call(ds, call, noises):
     """one estimator call on ds -> ({frozenset of two labels: value}, returned labels)"""
     from rsatoolbox.rdm import calc_rdm, calc_rdm_crossnobis
     method, desc, cv, nz, entry = call
     cvd = 'fold' if cv == 'explicit' else None
-    noise = _precision(seed, P, 100) if nz == 'one' else None
+    noise = noises[nz]
     if method == 'poisson_cv':
         rdm = calc_rdm(ds, method='poisson_cv', descriptor=desc, cv_descriptor=cvd)
     elif entry == 'calc_rdm':
@@ -726,6 +775,7 @@ def _seq_call(ds, call, data, seed, P):
 
 
 def _seq_want(call, data, seed, P):
+    """the definition, on the original data and pristine precisions"""
     method, desc, cv, nz, _ = call
     cond = data[desc]
     fold = data['fold'] if cv == 'explicit' else ref.default_folds(cond)
@@ -733,7 +783,13 @@ def _seq_want(call, data, seed, P):
         return None
     if method == 'poisson_cv':
         return ref.poisson_cv(data['rows'], cond, fold, 1.0, 0.1)
-    return ref.crossnobis(data['rows'], cond, fold, _precision(seed, P, 100) if nz == 'one' else None, False)
+    prec = None
+    if nz == 'one':
+        prec = _precision(seed, P, 100)
+    elif nz.startswith('pf-'):
+        ids = sorted(ref.distinct(fold))        # i-th entry of the container <-> i-th fold in sorted order
+        prec = {lab: _precision(seed, P, i) for i, lab in enumerate(ids)}
+    return ref.crossnobis(data['rows'], cond, fold, prec, False)
 
 
 def _seq_agrees(got, labels, want, cond):
@@ -748,7 +804,7 @@ def _seq_fresh_ok(case, call, data, ctx):
                'call': call})
     if key not in _CACHE:
         try:
-            got, labels = _seq_call(_seq_dataset(data), call, data, ctx.seed, case['P'])
+            got, labels = _seq_call(_seq_dataset(data), call, _seq_noise(ctx.seed, case['P'], case['M']))
             _CACHE[key] = _seq_agrees(got, labels, _seq_want(call, data, ctx.seed, case['P']), data[call[1]])
         except Exception:
             _CACHE[key] = False
@@ -760,7 +816,8 @@ def _seq_sig(call):
     if method == 'poisson_cv':
         return 'sequence|calc_rdm(poisson_cv),cv=%s' % cv
     return 'sequence|%s,noise=%s,cv=%s' % (
-        'calc_rdm(crossnobis)' if entry == 'calc_rdm' else 'calc_rdm_crossnobis', nz, cv)
+        'calc_rdm(crossnobis)' if entry == 'calc_rdm' else 'calc_rdm_crossnobis',
+        'perfold' if nz.startswith('pf-') else nz, cv)
 
 
 def _judge_sequence(case, ctx):
@@ -773,6 +830,8 @@ def _judge_sequence(case, ctx):
         ds = _seq_dataset(data)
         state0 = _seq_state(ds)
         keys0 = sorted(ds.obs_descriptors)
+        noises = _seq_noise(ctx.seed, case['P'], case['M'])
+        nstate0 = fingerprint(noises)
     outs = []
     for step, call in enumerate(calls):
         sigp = _seq_sig(call)
@@ -781,7 +840,7 @@ def _judge_sequence(case, ctx):
             if want is None:
                 ctx.exclude('not fold balanced')
                 continue
-            got, labels = _seq_call(ds, call, data, ctx.seed, case['P'])
+            got, labels = _seq_call(ds, call, noises)
             if not _seq_agrees(got, labels, want, data[call[1]]):
                 earlier = step > 0 and _seq_fresh_ok(case, call, data, ctx)
                 kind = 'depends-on-earlier-call' if earlier else (
@@ -801,6 +860,11 @@ def _judge_sequence(case, ctx):
                          'its state before the sequence (obs descriptor keys %r, before %r)' % (
                              step + 1, calls, keys1, keys0))
                 state0 = _seq_state(ds)      # report each modification once, at the call that made it
+            if fingerprint(noises) != nstate0:
+                ctx.fail(sigp + '|modifies-argument:noise', case, 'after call %d of %r the caller\'s precision '
+                         'object (%s) is not bit-identical to its state before the sequence' % (
+                             step + 1, calls, call[3]))
+                nstate0 = fingerprint(noises)
         if not guard.ok:
             break
     ctx.outcome(outs)
